@@ -1,12 +1,348 @@
-//! C07 — not built yet.
-use crate::runner::{Outcome, Summary};
-use crate::Ctx;
-use serde_json::Value;
+//! C07 — quoted strings survive printing and parsing unchanged.
+//!
+//! replay: TLC cases {s, rest, quoted, ok, val} from spec/mc/MC_QuotedString.tla.  The string `s` is
+//!         placed, through the public constructors, in every string-bearing position whose printed
+//!         continuation has the shape `rest` (end of text / end of line / a further operand / a further
+//!         string); the program is printed and parsed back and the strings it holds are compared.
+//! drive:  seeded random strings (longer, full printable ASCII plus newline and tab) through the same
+//!         positions; events reset/printed/lexed/done go to spec/trace/QuotedStringTrace.tla, where TLC
+//!         runs the model lexer on the *real* printed text.
+//!
+//! Verdict (property statement): the text parses and every string of the re-parsed program equals the
+//! string that was put in.  The exact printed lexeme (model `quoted`) is divergence only.
 
-pub fn replay(_ctx: &Ctx, _case: &Value) -> Outcome {
-    panic!("C07: replay not implemented")
+use crate::runner::{Outcome, Summary, Violation};
+use crate::util;
+use crate::Ctx;
+use quil_rs::expression::Expression;
+use quil_rs::instruction::{
+    AttributeValue, CalibrationDefinition, CalibrationIdentifier, Capture, CircuitDefinition, Delay, FrameAttributes,
+    FrameDefinition, FrameIdentifier, Gate, Include, Instruction, MeasureCalibrationDefinition,
+    MeasureCalibrationIdentifier, MemoryReference, Pragma, PragmaArgument, Pulse, Qubit, RawCapture, SetFrequency,
+    SetPhase, SetScale, ShiftFrequency, ShiftPhase, SwapPhases, WaveformInvocation, WaveformParameters,
+};
+use quil_rs::quil::Quil;
+use quil_rs::Program;
+use rand::Rng;
+use serde_json::{json, Value};
+use std::str::FromStr;
+
+pub fn chars_to_string(v: &Value) -> String {
+    v.as_array().expect("char array").iter().map(|c| c.as_str().expect("char")).collect()
 }
 
-pub fn drive(_ctx: &Ctx) -> Summary {
-    panic!("C07: drive not implemented")
+pub fn string_to_chars(s: &str) -> Value {
+    Value::Array(s.chars().map(|c| json!(c.to_string())).collect())
+}
+
+/// Every string value an instruction holds, in printing order (recursively through bodies).
+pub fn strings_of(i: &Instruction, out: &mut Vec<String>) {
+    let frame = |f: &FrameIdentifier, out: &mut Vec<String>| out.push(f.name.clone());
+    match i {
+        Instruction::Pragma(p) => {
+            if let Some(d) = &p.data {
+                out.push(d.clone())
+            }
+        }
+        Instruction::Include(x) => out.push(x.filename.clone()),
+        Instruction::FrameDefinition(d) => {
+            frame(&d.identifier, out);
+            for (_, v) in &d.attributes {
+                if let AttributeValue::String(s) = v {
+                    out.push(s.clone())
+                }
+            }
+        }
+        Instruction::Pulse(p) => frame(&p.frame, out),
+        Instruction::Capture(p) => frame(&p.frame, out),
+        Instruction::RawCapture(p) => frame(&p.frame, out),
+        Instruction::SetFrequency(p) => frame(&p.frame, out),
+        Instruction::SetPhase(p) => frame(&p.frame, out),
+        Instruction::SetScale(p) => frame(&p.frame, out),
+        Instruction::ShiftFrequency(p) => frame(&p.frame, out),
+        Instruction::ShiftPhase(p) => frame(&p.frame, out),
+        Instruction::SwapPhases(p) => {
+            frame(&p.frame_1, out);
+            frame(&p.frame_2, out)
+        }
+        Instruction::Delay(d) => out.extend(d.frame_names.iter().cloned()),
+        Instruction::CalibrationDefinition(c) => c.instructions.iter().for_each(|i| strings_of(i, out)),
+        Instruction::MeasureCalibrationDefinition(c) => c.instructions.iter().for_each(|i| strings_of(i, out)),
+        Instruction::CircuitDefinition(c) => c.instructions.iter().for_each(|i| strings_of(i, out)),
+        _ => {}
+    }
+}
+
+fn fid(name: &str) -> FrameIdentifier {
+    FrameIdentifier::new(name.to_string(), vec![Qubit::Fixed(0)])
+}
+fn fid2(name: &str) -> FrameIdentifier {
+    FrameIdentifier::new(name.to_string(), vec![Qubit::Fixed(0), Qubit::Variable("q".into())])
+}
+fn one() -> Expression {
+    Expression::from_str("1.5").unwrap()
+}
+fn wf() -> WaveformInvocation {
+    let mut p = WaveformParameters::new();
+    p.insert("duration".to_string(), one());
+    WaveformInvocation::new("flat".to_string(), p)
+}
+fn mref() -> MemoryReference {
+    MemoryReference::new("ro".to_string(), 0)
+}
+fn pragma(s: &str) -> Instruction {
+    Instruction::Pragma(Pragma::new("foo".into(), vec![PragmaArgument::Identifier("a".into()), PragmaArgument::Integer(1)],
+                                    Some(s.to_string())))
+}
+fn gate_x() -> Instruction {
+    Instruction::Gate(Gate::new("X", vec![], vec![Qubit::Fixed(0)], vec![]).unwrap())
+}
+
+/// (position name, program) — positions where the string is the last thing of its instruction
+fn end_positions(s: &str) -> Vec<(&'static str, Vec<Instruction>)> {
+    let mut attrs = FrameAttributes::new();
+    attrs.insert("DIRECTION".into(), AttributeValue::String("tx".into()));
+    attrs.insert("HARDWARE-OBJECT".into(), AttributeValue::String(s.to_string()));
+    let mut attrs2 = FrameAttributes::new();
+    attrs2.insert("HARDWARE-OBJECT".into(), AttributeValue::String(s.to_string()));
+    attrs2.insert("INITIAL-FREQUENCY".into(), AttributeValue::Expression(one()));
+    vec![
+        ("pragma.data", vec![pragma(s)]),
+        ("pragma.data.noargs", vec![Instruction::Pragma(Pragma::new("bar".into(), vec![], Some(s.to_string())))]),
+        ("include.filename", vec![Instruction::Include(Include::new(s.to_string()))]),
+        ("defframe.attr.last", vec![Instruction::FrameDefinition(FrameDefinition::new(fid("rf"), attrs))]),
+        ("defframe.attr.first", vec![Instruction::FrameDefinition(FrameDefinition::new(fid("rf"), attrs2))]),
+        ("swap-phases.frame_2", vec![Instruction::SwapPhases(SwapPhases::new(fid("rf"), fid(s)))]),
+    ]
+}
+
+/// positions where an operand follows the string on the same line
+fn mid_positions(s: &str) -> Vec<(&'static str, Vec<Instruction>)> {
+    let mut attrs = FrameAttributes::new();
+    attrs.insert("DIRECTION".into(), AttributeValue::String("rx".into()));
+    vec![
+        ("defframe.name", vec![Instruction::FrameDefinition(FrameDefinition::new(fid2(s), attrs))]),
+        ("pulse.frame", vec![Instruction::Pulse(Pulse::new(true, fid(s), wf()))]),
+        ("pulse.frame.nonblocking", vec![Instruction::Pulse(Pulse::new(false, fid2(s), wf()))]),
+        ("capture.frame", vec![Instruction::Capture(Capture::new(true, fid(s), mref(), wf()))]),
+        ("raw-capture.frame", vec![Instruction::RawCapture(RawCapture::new(false, fid(s), one(), mref()))]),
+        ("set-frequency.frame", vec![Instruction::SetFrequency(SetFrequency::new(fid(s), one()))]),
+        ("set-phase.frame", vec![Instruction::SetPhase(SetPhase::new(fid(s), one()))]),
+        ("set-scale.frame", vec![Instruction::SetScale(SetScale::new(fid(s), one()))]),
+        ("shift-frequency.frame", vec![Instruction::ShiftFrequency(ShiftFrequency::new(fid(s), one()))]),
+        ("shift-phase.frame", vec![Instruction::ShiftPhase(ShiftPhase::new(fid(s), one()))]),
+        ("swap-phases.frame_1", vec![Instruction::SwapPhases(SwapPhases::new(fid(s), fid2("rf")))]),
+        ("delay.frame_name", vec![Instruction::Delay(Delay::new(one(), vec![s.to_string()], vec![Qubit::Fixed(0)]))]),
+    ]
+}
+
+/// positions where another string follows
+fn str_positions(s: &str) -> Vec<(&'static str, Vec<Instruction>)> {
+    vec![
+        ("delay.frame_names.first",
+         vec![Instruction::Delay(Delay::new(one(), vec![s.to_string(), "b".to_string()], vec![Qubit::Fixed(0)]))]),
+        ("delay.frame_names.last",
+         vec![Instruction::Delay(Delay::new(one(), vec!["b".to_string(), s.to_string()], vec![Qubit::Fixed(0), Qubit::Fixed(1)]))]),
+        ("delay.frame_names.both",
+         vec![Instruction::Delay(Delay::new(one(), vec![s.to_string(), s.to_string()], vec![Qubit::Fixed(0)]))]),
+    ]
+}
+
+/// positions where the instruction that ends in the string is followed by another line, at top level and
+/// inside the three kinds of body
+fn line_positions(s: &str) -> Vec<(&'static str, Vec<Instruction>)> {
+    let mut v = vec![];
+    for (n, mut p) in end_positions(s) {
+        p.push(gate_x());
+        v.push((n, p));
+    }
+    let cal_id = CalibrationIdentifier::new("X".into(), vec![], vec![], vec![Qubit::Fixed(0)]).unwrap();
+    v.push(("defcal.body.pragma",
+            vec![Instruction::CalibrationDefinition(CalibrationDefinition::new(cal_id.clone(), vec![pragma(s), gate_x()])), gate_x()]));
+    v.push(("defcal.body.pulse",
+            vec![Instruction::CalibrationDefinition(CalibrationDefinition::new(
+                cal_id, vec![Instruction::Pulse(Pulse::new(true, fid(s), wf())), pragma(s)]))]));
+    v.push(("defcal-measure.body.pragma",
+            vec![Instruction::MeasureCalibrationDefinition(MeasureCalibrationDefinition::new(
+                MeasureCalibrationIdentifier::new(None, Qubit::Fixed(0), Some("dest".into())), vec![pragma(s), gate_x()])), gate_x()]));
+    v.push((DEFCIRCUIT_POSITION,
+            vec![Instruction::CircuitDefinition(CircuitDefinition::new("c".into(), vec![], vec!["q".into()], vec![pragma(s), gate_x()])), gate_x()]));
+    v
+}
+
+/// (a string with a newline in a DEFCIRCUIT body used to be re-indented: repaired by /repo commit 0b27e6d,
+/// see known_findings.d/C07.json; this placement guards that fix)
+pub const DEFCIRCUIT_POSITION: &str = "defcircuit.body.pragma";
+
+fn nontrivial(s: &str) -> bool {
+    s.chars().any(|c| matches!(c, '"' | '\\' | '\n' | '#' | ';'))
+}
+
+fn all_strings(is: &[Instruction]) -> Vec<String> {
+    let mut out = vec![];
+    is.iter().for_each(|i| strings_of(i, &mut out));
+    out
+}
+
+/// The property on one placement.  Returns the printed text (if any).
+fn check_position(o: &mut Outcome, position: &str, s: &str, instrs: &[Instruction], quoted: Option<&str>) -> Option<String> {
+    let tag = |v: Violation| v;
+    let mut program = Program::new();
+    program.add_instructions(instrs.to_vec());
+    let want = all_strings(&program.to_instructions());
+    assert!(want.iter().any(|x| x == s), "harness: position {position} does not hold the string");
+    o.sub_evaluations += 1;
+    let text = match program.to_quil() {
+        Ok(t) => t,
+        Err(e) => {
+            o.violate(tag(Violation::new("serialization", json!("Ok"), json!(e.to_string())).note(position)));
+            return None;
+        }
+    };
+    if let Some(q) = quoted {
+        if !text.contains(q) {
+            o.diverge(format!("{position}: printed text {text:?} does not contain the model's lexeme {q:?}"));
+        }
+    }
+    match Program::from_str(&text) {
+        Err(e) => o.violate(tag(
+            Violation::new("printed text parses", json!("Ok"), json!(e.to_string())).note(format!("{position}: {text:?}")))),
+        Ok(p1) => {
+            let got = all_strings(&p1.to_instructions());
+            if got != want {
+                o.violate(tag(Violation::new("string after re-parsing", json!(want), json!(got)).note(format!("{position}: {text:?}"))));
+            } else if p1 != program {
+                o.diverge(format!("{position}: strings survive but the re-parsed program differs: {text:?}"));
+            }
+        }
+    }
+    // single instructions: also without the trailing newline that Program adds (string at end of text)
+    if instrs.len() == 1 {
+        if let Ok(t) = instrs[0].to_quil() {
+            o.sub_evaluations += 1;
+            match Program::from_str(&t) {
+                Err(e) => o.violate(tag(Violation::new("printed text parses", json!("Ok"), json!(e.to_string()))
+                    .note(format!("{position} (instruction text, no trailing newline): {t:?}")))),
+                Ok(p1) => {
+                    let got = all_strings(&p1.to_instructions());
+                    if got != want {
+                        o.violate(tag(Violation::new("string after re-parsing", json!(want), json!(got))
+                            .note(format!("{position} (instruction text): {t:?}"))));
+                    }
+                }
+            }
+        }
+    }
+    Some(text)
+}
+
+fn positions_for_rest(rest: &str, s: &str) -> Vec<(&'static str, Vec<Instruction>)> {
+    match rest {
+        "" => end_positions(s),
+        "\nX" => line_positions(s),
+        " x" => mid_positions(s),
+        " \"b\"" => str_positions(s),
+        other => panic!("harness: unknown continuation {other:?}"),
+    }
+}
+
+pub fn replay(_ctx: &Ctx, case: &Value) -> Outcome {
+    if let Some(h) = case.get("history") {
+        // a rejected recorded history: re-run its string through every position
+        let s = chars_to_string(&h[0]["s"]);
+        let mut o = Outcome::ok(nontrivial(&s));
+        for rest in ["", "\nX", " x", " \"b\""] {
+            for (name, p) in positions_for_rest(rest, &s) {
+                check_position(&mut o, name, &s, &p, None);
+            }
+        }
+        return o;
+    }
+    let s = chars_to_string(&case["s"]);
+    let rest = chars_to_string(&case["rest"]);
+    let quoted = chars_to_string(&case["quoted"]);
+    let mut o = Outcome::ok(nontrivial(&s));
+    if case["ok"].as_bool() != Some(true) || chars_to_string(&case["val"]) != s {
+        // the model itself says the string does not survive (only with a deviation switched on)
+        o.diverge("model case with ok = false or val # s".to_string());
+    }
+    for (name, p) in positions_for_rest(&rest, &s) {
+        check_position(&mut o, name, &s, &p, Some(&quoted));
+        o.count(name);
+    }
+    o
+}
+
+// ------------------------------------------------------------------------------------------- drive
+
+fn random_string(r: &mut impl Rng, max_len: usize) -> String {
+    let n = r.gen_range(0..=max_len);
+    (0..n)
+        .map(|_| match r.gen_range(0..100) {
+            0..=14 => '"',
+            15..=29 => '\\',
+            30..=36 => '\n',
+            37..=39 => '\t',
+            40..=44 => '#',
+            45..=49 => ';',
+            50..=54 => ' ',
+            _ => r.gen_range(0x20u8..0x7f) as char,
+        })
+        .collect()
+}
+
+pub fn drive(ctx: &Ctx) -> Summary {
+    let n = ctx.arg_u64("n", 200);
+    let max_len = ctx.arg_u64("len", 40) as usize;
+    let path = ctx.arg_str("out").expect("--out");
+    let mut out = std::io::BufWriter::new(std::fs::File::create(path).expect("create trace"));
+    let mut rng = util::rng(ctx.seed, 7);
+    let mut sum = Summary::default();
+    for _ in 0..n {
+        let s = random_string(&mut rng, max_len);
+        let mut o = Outcome::ok(nontrivial(&s));
+        util::emit(&mut out, &json!({"ev": "reset", "s": string_to_chars(&s)}));
+        // the lexeme as the real printer writes it (INCLUDE is `INCLUDE ` + QuotedString)
+        let inc = Instruction::Include(Include::new(s.clone())).to_quil().expect("INCLUDE prints");
+        let quoted = inc.strip_prefix("INCLUDE ").expect("INCLUDE prefix").to_string();
+        util::emit(&mut out, &json!({"ev": "printed", "quoted": string_to_chars(&quoted)}));
+        // the real lexer on the real lexeme followed by each continuation
+        for rest in ["", "\nX 0", " \"b\""] {
+            let text = format!("PRAGMA p {quoted}{rest}");
+            let (ok, val) = match Program::from_str(&text) {
+                Ok(p) => match p.to_instructions().first() {
+                    Some(Instruction::Pragma(pr)) => (true, pr.data.clone().unwrap_or_default()),
+                    _ => (false, String::new()),
+                },
+                Err(_) => (false, String::new()),
+            };
+            // `PRAGMA p "s" "b"` is not a program (one data string only): there the real lexer is observed
+            // through DELAY, whose frame names are a list of strings
+            let (ok, val) = if rest == " \"b\"" {
+                match Program::from_str(&format!("DELAY 0 {quoted}{rest} 1.0")) {
+                    Ok(p) => match p.to_instructions().first() {
+                        Some(Instruction::Delay(d)) if d.frame_names.len() == 2 => (true, d.frame_names[0].clone()),
+                        _ => (false, String::new()),
+                    },
+                    Err(_) => (false, String::new()),
+                }
+            } else {
+                (ok, val)
+            };
+            util::emit(&mut out, &json!({"ev": "lexed", "rest": string_to_chars(rest), "ok": ok, "val": string_to_chars(&val)}));
+        }
+        // every position, judged by the property
+        let mut positions = 0;
+        for rest in ["", "\nX", " x", " \"b\""] {
+            for (name, p) in positions_for_rest(rest, &s) {
+                check_position(&mut o, name, &s, &p, Some(&quoted));
+                positions += 1;
+            }
+        }
+        let untagged = o.violations.iter().filter(|v| v.finding.is_none()).count();
+        util::emit(&mut out, &json!({"ev": "done", "positions": positions, "failed": untagged}));
+        o.count_n("events", 6);
+        sum.absorb(&json!({"s": s}), &o, true);
+    }
+    sum
 }
